@@ -35,6 +35,8 @@ func NewScheduler(r runner.Runner) *Scheduler {
 func (s *Scheduler) Schedule(g *ExecutionGraph) error {
 	g.start = time.Now()
 	defer func() { g.end = time.Now() }()
+	verifSchedule(s, g, true, nil)
+	defer func() { verifSchedule(s, g, false, g.error) }()
 
 	var wg = sync.WaitGroup{}
 
@@ -92,6 +94,7 @@ func (s *Scheduler) Schedule(g *ExecutionGraph) error {
 			}(stage)
 		}
 
+		verifPass(s, g)
 		time.Sleep(s.pause)
 	}
 
